@@ -267,7 +267,7 @@ def discharge(ctx, neg, timeout_ms, st: SolveStats, *, use_cvc5=True, cross=Fals
         for f in (red if r == "unsat" else full):
             s2.add(f)
         t4 = time.time()
-        r4 = cvc5_check(s2.to_smt2(), min(timeout_ms, 5000))
+        r4 = cvc5_check(s2.to_smt2(), min(timeout_ms, 3000))
         st.cvc5_time += time.time() - t4
         if r4 in ("sat", "unsat"):
             if r4 == r:
